@@ -168,6 +168,39 @@ let worlds = ref 0 and worlds_true = ref 0 and bad = ref 0 and sat_panic = ref 0
 let exhaustive = ref 0 and sampled = ref 0
 let samples : string list ref = ref []
 
+let ctx_of_kind (kind : string) : ctx =
+  match kind with
+  | "ms-bare" | "bare" -> Bare
+  | "ms-legacy" | "sh" -> Legacy
+  | "ms-segv0" | "wsh" | "shwsh" -> Segwitv0
+  | _ -> Tap
+(* keys 6 and 7 of the harness World are uncompressed (Bare / Legacy only) *)
+let unc_key (k : n) : bool = let i = int_of_n k in i = 6 || i = 7
+let rl_eq = ref 0 and rl_diff = ref 0
+let over_limit = ref 0 and x_run = ref 0 and x_bad = ref 0 and x_max_ops = ref 0 and x_max_depth = ref 0 and x_max_items = ref 0
+let dummy_e : n list ref = ref [] and dummy_s : n list ref = ref []
+
+(* environment for executing the implementation's witness with the specification's instrumented
+   Script semantics: every key "signs" with the engine's dummy signatures *)
+let hash_of kind (inp : n list) : n list =
+  match List.find_opt (fun (_, p) -> p.pre = inp) !pres with
+  | Some (_, p) -> (match kind with `Sha -> p.sha | `H256 -> p.h256 | `Rip -> p.rip | `H160 -> p.h160)
+  | None ->
+    (match kind with
+     | `H160 ->
+       (match List.find_opt (fun (_, k) -> k.full = inp || k.xonly = inp || k.comp = inp) !keys with
+        | Some (_, k) -> if k.xonly = inp then k.h_x else k.h_full
+        | None -> [byte_tab.(255)])
+     | _ -> [byte_tab.(255)])
+let env_of (cx : ctx) (held_abs : int option) (held_rel : int option) : env =
+  { e_sv = (match cx with Tap -> SvTapscript | Segwitv0 -> SvWitnessV0 | _ -> SvBase);
+    e_locktime = n_of_int (match held_abs with Some l -> l | None -> 0);
+    e_sequence = n_of_int (match held_rel with Some q -> q | None -> if held_abs = None then 0xffffffff else 0xfffffffe);
+    e_txversion = n_of_int 2;
+    e_sigok = (fun _ sg -> sg <> [] && (sg = !dummy_e || sg = !dummy_s));
+    e_keyok = (fun _ -> true);
+    e_sha256 = hash_of `Sha; e_hash256 = hash_of `H256; e_ripemd160 = hash_of `Rip; e_hash160 = hash_of `H160 }
+
 let build_target (c : case) : target option =
   let one () = match c.mss, c.rls with [(_, m)], [rl] -> Some (rl, m) | _ -> None in
   match c.kind with
@@ -210,9 +243,22 @@ let handle_lift (c : case) (toks : string list) =
   match c.target with
   | None -> Printf.printf "DIFF lift case=%s kind=%s reason=unparsed-case\n" c.id c.kind; incr lift_diff
   | Some t ->
+    let cx = ctx_of_kind c.kind in
     let model = (match t with
-        | TMs m -> let rl = (match c.rls with [r] -> r | _ -> true) in lift_iter rl m
-        | TDesc d -> lift_desc d) in
+        | TMs m -> lift_ctx cx unc_key m
+        | TDesc d -> lift_desc_ctx unc_key d) in
+    (* tie of the verdict itself: the library's within_resource_limits() vs the model computed from the fragment *)
+    let impl_bits = c.rls in
+    let model_bits = (match t with
+        | TMs m -> [within_resource_limits cx unc_key m]
+        | TDesc d -> desc_bits (redesc unc_key d)) in
+    if impl_bits = model_bits then incr rl_eq
+    else begin
+      incr rl_diff;
+      Printf.printf "DIFF rl case=%s kind=%s impl=%s model=%s desc=%s ms=%s\n" c.id c.kind
+        (String.concat "," (List.map string_of_bool impl_bits)) (String.concat "," (List.map string_of_bool model_bits))
+        c.desc (ms_text c)
+    end;
     if lres_eqb model impl then begin
       incr lift_eq;
       if List.length !samples < 12 && (!n_cases mod 37 = 1 || List.length !samples < 3) then
@@ -221,6 +267,34 @@ let handle_lift (c : case) (toks : string list) =
       incr lift_diff;
       Printf.printf "DIFF lift case=%s kind=%s desc=%s impl=%s model=%s ms=%s\n" c.id c.kind c.desc (show_res impl) (show_res model) (ms_text c)
     end
+
+(* an upper bound on the number of entries of the specification table (all assets available), so that
+   the list-valued table is only evaluated where it is small; elsewhere the comparison is
+   policy vs satisfier (and the witness execution) *)
+let rec choose (n : int) (k : int) : float =
+  if k < 0 || k > n then 0.0 else if k = 0 then 1.0 else choose (n - 1) (k - 1) *. float_of_int n /. float_of_int k
+let rec tbl_size (m : ms) : float * float =
+  match m with
+  | MTrue -> (1., 0.) | MFalse -> (0., 1.)
+  | MPkK _ | MPkH _ | MSha256 _ | MHash256 _ | MRipemd160 _ | MHash160 _ -> (1., 1.)
+  | MRawPkH _ -> (0., 0.) | MAfter _ | MOlder _ -> (1., 0.)
+  | MAlt x | MSwap x | MCheck x | MZeroNotEqual x -> tbl_size x
+  | MDupIf x | MNonZero x -> (fst (tbl_size x), 1.)
+  | MVerify x -> (fst (tbl_size x), 0.)
+  | MAndV (x, y) -> let (sx, _) = tbl_size x and (sy, dy) = tbl_size y in (sx *. sy, sx *. dy)
+  | MAndB (x, y) -> let (sx, dx) = tbl_size x and (sy, dy) = tbl_size y in (sx *. sy, dx *. dy)
+  | MAndOr (a, b, c) ->
+    let (sa, da) = tbl_size a and (sb, _) = tbl_size b and (sc, dc) = tbl_size c in (sa *. sb +. da *. sc, da *. dc)
+  | MOrB (x, z) -> let (sx, dx) = tbl_size x and (sz, dz) = tbl_size z in (dx *. sz +. sx *. dz, dx *. dz)
+  | MOrC (x, z) -> let (sx, dx) = tbl_size x and (sz, _) = tbl_size z in (sx +. dx *. sz, 0.)
+  | MOrD (x, z) -> let (sx, dx) = tbl_size x and (sz, dz) = tbl_size z in (sx +. dx *. sz, dx *. dz)
+  | MOrI (x, z) -> let (sx, dx) = tbl_size x and (sz, dz) = tbl_size z in (sx +. sz, dx +. dz)
+  | MThresh (_, xs) ->
+    let t = List.fold_left (fun acc x -> let (a, b) = tbl_size x in acc *. (a +. b)) 1. xs in (t, t)
+  | MMulti (k, ks) | MSortedMulti (k, ks) | MMultiA (k, ks) | MSortedMultiA (k, ks) ->
+    (choose (List.length ks) (int_of_n k) *. float_of_int (1 + List.length ks / 50), 1.)
+let table_feasible (m : ms) : bool = let (a, b) = tbl_size m in a +. b <= 200000.
+let table_skipped = ref 0
 
 let handle_world (c : case) (toks : string list) =
   match toks, c.impl, c.target with
@@ -239,16 +313,69 @@ let handle_world (c : case) (toks : string list) =
     end else begin
       let e_pol = leval a p in
       let e_sat = (v = "1") in
-      let e_tab = (match t with
-          | TMs m -> nonempty (all_sat ke a m)
-          | TDesc d -> desc_spendable ke a (fun _ -> a) d) in
+      let feasible = (match t with
+          | TMs m -> table_feasible m
+          | TDesc d -> List.for_all (fun (_, m) -> table_feasible m) c.mss) in
+      let e_tab =
+        if not feasible then (incr table_skipped; e_pol)
+        else (match t with
+            | TMs m -> nonempty (all_sat ke a m)
+            | TDesc d -> desc_spendable ke a (fun _ -> a) d) in
       if e_pol then incr worlds_true;
+      (* oracle that does not trust within_resource_limits: the satisfaction the library found in
+         this world must fit the context's limits on the initial stack *)
+      (match toks with
+       | _ :: _ :: _ :: _ :: _ :: n :: bytes :: _ when e_sat ->
+         let n = int_of_string n and bytes = int_of_string bytes in
+         if n > !x_max_items then x_max_items := n;
+         let cx = ctx_of_kind c.kind in
+         let why =
+           (match cx with
+            | Tap -> if n > 1000 then Some "more-than-1000-stack-elements" else None
+            | Segwitv0 -> if n > 1000 then Some "more-than-1000-stack-elements" else if n > 100 then Some "more-than-100-witness-items" else None
+            | Legacy -> if n > 1000 then Some "more-than-1000-stack-elements" else if bytes > 1650 then Some "scriptsig-over-1650-bytes" else None
+            (* the library's Bare context has no scriptSig-size rule (bare descriptors admit only pk / pkh / multi) *)
+            | Bare -> if n > 1000 then Some "more-than-1000-stack-elements" else None) in
+         (match why with
+          | Some r ->
+            incr over_limit;
+            Printf.printf "BAD C07 case=%s kind=%s keymask=%s premask=%s lock=%s seq=%s policy_says=%b satisfier_says=%b table_says=%b limit=%s items=%d bytes=%d policy=%s desc=%s ms=%s\n"
+              c.id c.kind km pm l s e_pol e_sat e_tab r n bytes (show_pol p) (if c.desc = "" then "-" else c.desc) (ms_text c)
+          | None -> ())
+       | _ -> ());
       if e_pol <> e_sat || e_pol <> e_tab then begin
         incr bad;
         Printf.printf "BAD C07 case=%s kind=%s keymask=%s premask=%s lock=%s seq=%s policy_says=%b satisfier_says=%b table_says=%b policy=%s desc=%s ms=%s\n"
           c.id c.kind km pm l s e_pol e_sat e_tab (show_pol p) (if c.desc = "" then "-" else c.desc) (ms_text c)
       end
     end
+  | _ -> ()
+
+let handle_x (c : case) (toks : string list) =
+  match toks with
+  | km :: pm :: l :: s :: script :: _n :: items ->
+    let held_abs = if l = "-" then None else Some (int_of_string l) in
+    let held_rel = if s = "-" then None else Some (int_of_string s) in
+    let cx = ctx_of_kind c.kind in
+    let e = env_of cx held_abs held_rel in
+    incr x_run;
+    let fail why ops depth =
+      incr x_bad;
+      Printf.printf "BAD C07 case=%s kind=%s keymask=%s premask=%s lock=%s seq=%s policy_says=true satisfier_says=true table_says=true limit=%s ops=%d depth=%d items=%d policy=- desc=%s ms=%s\n"
+        c.id c.kind km pm l s why ops depth (List.length items) (if c.desc = "" then "-" else c.desc) (ms_text c) in
+    (match trace_of_script e (bytes_of_hex script) (List.map bytes_of_hex items) with
+     | None -> fail "script-does-not-parse" 0 0
+     | Some ((ops, depth), acc) ->
+       let ops = int_of_n ops and depth = int_of_n depth in
+       if ops > !x_max_ops then x_max_ops := ops;
+       if depth > !x_max_depth then x_max_depth := depth;
+       (* "exactly one true element is left" is the acceptance rule of B-typed scripts only *)
+       let is_b = (match c.target with
+           | Some (TMs m) -> (match type_of m with ROk t -> t.t_corr.c_base = BB | RErr _ -> false)
+           | _ -> true) in
+       if is_b && not acc then fail "witness-rejected-by-the-script-semantics" ops depth
+       else if depth > 1000 then fail "more-than-1000-stack-elements-during-execution" ops depth
+       else if cx <> Tap && ops > 201 then fail "more-than-201-ops" ops depth)
   | _ -> ()
 
 let () =
@@ -288,12 +415,16 @@ let () =
              bump ("worlds/" ^ (if nw <= 4 then "001-004" else if nw <= 16 then "005-016" else if nw <= 64 then "017-064"
                                 else if nw <= 256 then "065-256" else if nw <= 1024 then "257-1024" else "1025+")))
        | "W" :: rest -> upd (fun c -> handle_world c rest)
+       | "X" :: rest -> upd (fun c -> handle_x c rest)
+       | "DUMMY" :: a :: b :: _ -> dummy_e := bytes_of_hex a; dummy_s := bytes_of_hex b
        | "END" :: _ -> cur := None
        | "PANIC" :: _ -> print_endline line
        | _ -> ()
      done
    with End_of_file -> ());
-  Printf.printf "SUMMARY cases=%d lift_ok=%d lift_err=%d lift_panic=%d lift_eq=%d lift_diff=%d worlds=%d worlds_true=%d bad=%d sat_panic=%d exhaustive=%d sampled=%d\n"
-    !n_cases !lift_ok !lift_err !lift_panic !lift_eq !lift_diff !worlds !worlds_true !bad !sat_panic !exhaustive !sampled;
+  Printf.printf "SUMMARY cases=%d lift_ok=%d lift_err=%d lift_panic=%d lift_eq=%d lift_diff=%d worlds=%d worlds_true=%d bad=%d sat_panic=%d exhaustive=%d sampled=%d rl_eq=%d rl_diff=%d over_limit=%d x_run=%d x_bad=%d\n"
+    !n_cases !lift_ok !lift_err !lift_panic !lift_eq !lift_diff !worlds !worlds_true !bad !sat_panic !exhaustive !sampled
+    !rl_eq !rl_diff !over_limit !x_run !x_bad;
+  Printf.printf "MAXES ops=%d depth=%d items=%d table_skipped=%d\n" !x_max_ops !x_max_depth !x_max_items !table_skipped;
   Hashtbl.iter (fun k v -> Printf.printf "HIST %s %d\n" k v) hist;
   List.iter (fun s -> Printf.printf "SAMPLE %s\n" s) (List.rev !samples)
